@@ -136,6 +136,7 @@ DEC_STRICT_OK = fun("bytes_decode_strict_ok", S, S, B)
 ENC_IGN = fun("str_encode_ignore", S, S, S)            # s.encode(cs, errors="ignore")
 RSTRIP_EOL = fun("bytes_rstrip_crlf", S, S)            # b.rstrip(b"\r\n")
 B64D = fun("base64_b64decode", S, S)
+REPLACE_ALL = fun("str_replace_all", S, S, S, S)       # x.replace(old, new)
 LOWER = z3.Function("str_lower", S, S)                 # same symbol as contracts/C07.py
 
 # re: match list of a compiled pattern over data
@@ -497,6 +498,41 @@ class MailExecutor(UnitsExecutor):
             return z3.IntVal(len(items)), (lambda k, items=items: X._sel(items, k)), kind
         return None
 
+    def e_List(self, n, st):
+        """(round 6) a list display with `*xs` of a symbolic sequence: the concatenation of its segments"""
+        if not any(isinstance(e, ast.Starred) for e in n.elts):
+            return super().e_List(n, st)
+        try:
+            return super().e_List(n, st)
+        except Unsupported as e:
+            if "starred of symbolic iterable" not in str(e):
+                raise
+        segs, cur = [], []
+        for e in n.elts:
+            if isinstance(e, ast.Starred):
+                if cur:
+                    segs.append(ast.List(elts=cur, ctx=ast.Load()))
+                    cur = []
+                segs.append(e.value)
+            else:
+                cur.append(e)
+        if cur:
+            segs.append(ast.List(elts=cur, ctx=ast.Load()))
+        acc = [(st, None)]
+        for seg in segs:
+            nxt = []
+            for (s, a) in acc:
+                for (s2, v) in self.ev(ast.copy_location(seg, n) if not hasattr(seg, "lineno") else seg, s):
+                    if self._listlike(s2, v) is None:
+                        raise Unsupported(f"{self.loc(n)} starred of something that is not a list")
+                    if a is None:
+                        n1, e1, k1 = self._listlike(s2, v)
+                        nxt.append((s2, self.new_alist(s2, VSeq(n1, e1, k1))))
+                    else:
+                        nxt.extend(self.binop(s2, "Add", a, v, n))
+            acc = nxt
+        return acc
+
     def b_zip(self, st, args, kwargs, node):
         args = [st.obj(a.ref).data if isinstance(a, VRef) and st.obj(a.ref).kind == "alist" else a for a in args]
         return super().b_zip(st, args, kwargs, node)
@@ -673,6 +709,19 @@ class MailExecutor(UnitsExecutor):
             return self.call_method(st2, obj.val, name, args, kwargs, node)
         if isinstance(obj, VBytes) and name in ("decode", "rstrip"):
             obj = VStr(bytes_term(obj))
+        if isinstance(obj, (VStr, VDyn)) and name == "replace" and len(args) == 2 and not kwargs \
+                and all(isinstance(a, (VStr, VBytes)) for a in args):
+            # (round 6) x.replace(old, new) of a symbolic str / bytes: ASSUMED (CPython) -- total; the result is x itself iff old
+            # does not occur in x or old == new.  What it is otherwise stays uninterpreted (a function of the three arguments).
+            try:
+                t, old, new = bytes_term(obj) if not isinstance(obj, VDyn) else obj.t, bytes_term(args[0]), bytes_term(args[1])
+            except Unsupported:
+                t = None
+            if t is not None:
+                r = REPLACE_ALL(t, old, new)
+                st.assume(z3.And(z3.Implies(z3.Or(z3.Not(z3.Contains(t, old)), old == new), r == t),
+                                 z3.Implies(z3.And(z3.Contains(t, old), old != new), r != t)))
+                return [(st, VDyn(r, obj.isb) if isinstance(obj, VDyn) else VStr(r))]
         if isinstance(obj, VStr):
             if name == "decode":
                 return self.m_decode(st, obj, args, kwargs, node)
@@ -1464,9 +1513,75 @@ def built_list(lc, ordinal=0, kind="str"):
     return r
 
 
+# ------------------------------------------- bounded refuter: joins of DIFFERENT lengths --
+def multi_join_refuter(pc, goal, timeout_ms=None):
+    """(round 6) DESIGN 2.5.3a for VCs with several `sep.join(seq)` whose lengths are different terms (e.g. the joined plain parts
+    and `[body, *other_parts]`): the uninterpreted length atoms get every combination of values 0..2, each join whose length is
+    then a number is written out (nested joins innermost-last, three rounds).  `sat` is a counter-model in which join is the
+    real join; other spec functions stay uninterpreted, the native replayer confirms."""
+    import itertools
+    fs = [f for f in list(pc) + [z3.Not(goal)]]
+    joins = X._collect_joins(fs)
+    if not joins:
+        return None
+    atoms = {}
+
+    def collect_atoms(t):
+        if z3.is_int_value(t):
+            return
+        if z3.is_app(t) and t.decl().kind() in (z3.Z3_OP_ADD, z3.Z3_OP_SUB, z3.Z3_OP_ITE, z3.Z3_OP_LT, z3.Z3_OP_LE, z3.Z3_OP_GT, z3.Z3_OP_GE):
+            for ch in t.children():
+                collect_atoms(ch)
+        elif t.sort() == I:
+            atoms[t.get_id()] = t
+    for j in joins:
+        collect_atoms(j.arg(2))
+    atoms = list(atoms.values())
+    if not atoms or len(atoms) > 3:
+        return None
+    for combo in itertools.product(range(3), repeat=len(atoms)):
+        cur = [z3.substitute(f, *[(a, z3.IntVal(v)) for a, v in zip(atoms, combo)]) for f in fs]
+        ok = True
+        for _round in range(3):
+            js = X._collect_joins(cur)
+            if not js:
+                break
+            subs = []
+            for j in js:
+                L = z3.simplify(j.arg(2))
+                if not z3.is_int_value(L) or L.as_long() > 4:
+                    continue
+                n, sep, arr = L.as_long(), j.arg(0), j.arg(1)
+                e = z3.StringVal("") if n <= 0 else z3.Select(arr, z3.IntVal(0))
+                for i in range(1, n):
+                    e = z3.Concat(e, sep, z3.Select(arr, z3.IntVal(i)))
+                subs.append((j, e))
+            if not subs:
+                ok = False
+                break
+            cur = [z3.simplify(z3.substitute(f, *subs)) for f in cur]
+        if not ok or X._collect_joins(cur):
+            continue
+        sv = z3.Solver()
+        sv.set("timeout", min(timeout_ms or 3000, 3000))
+        sv.add(*cur)
+        for a, v in zip(atoms, combo):
+            sv.add(a == v)
+        if sv.check() == z3.sat:
+            return "falsified by bounded instantiation: sequence lengths " + ", ".join(f"{a} = {v}" for a, v in zip(atoms, combo)) + ", joins written out"
+    return None
+
+
+def register_refuter():
+    from pyvc import solve
+    if multi_join_refuter not in solve.EXTRA_REFUTERS:
+        solve.EXTRA_REFUTERS.append(multi_join_refuter)
+
+
 # ============================================================ assumed library models ==
 def install(reg):
     X.install(reg)
+    register_refuter()
     from contracts import common
     common.install_bytesio(reg)
 
@@ -1662,6 +1777,9 @@ def install(reg):
 
     reg.attr_models[("Mail", "text_plain")] = text_attr("text_plain")
     reg.attr_models[("Mail", "text_html")] = text_attr("text_html")
+    # (round 6) mailparser's third bucket: inline parts without a file name that are neither text/plain nor text/html (ASSUMED: a
+    # list of str like the other two; nothing relates it to them)
+    reg.attr_models[("Mail", "text_not_managed")] = text_attr("text_not_managed")
 
     def a_attachments(ex, st, obj):
         st.assume(MA_N(obj.t) >= 0)
